@@ -7,9 +7,10 @@ in `tubeEnd` and in the final flush) are `Int` with Go's truncated division (`In
 `Int.tmod`); query/target positions, diagonal indices of common k-mers and slot numbers are `Nat`.
 Hits are collected in push order; the morass only re-orders them.
 
-`Rule` records the two places where the retirement logic of the source is regenerated as a fact
-(`Biogo.Generated.FilterFacts`): what `tubeEnd` subtracts from the diagonal index, and where the
-final flush starts.
+`Rule` records the places where the retirement logic of the source is regenerated as a fact
+(`Biogo.Generated.FilterFacts`): what `tubeEnd` subtracts from the diagonal index, where the
+final flush starts, and whether the ticker follows the query position delivered by the callback
+or counts callbacks.
 -/
 import Biogo.Model.Kmer
 
@@ -32,10 +33,16 @@ structure Rule where
   /-- the final flush starts at the tube of `diagIndex(Tlen-1, Qlen-k) - maxError` (true: the first
       tube no tick has retired) or of `diagIndex(Tlen-1, Qlen-1) - tubeWidth` (false) -/
   flushFromLastTick : Bool
+  /-- the ticker: `ticker` is the number of query positions after which the next tube ends, and
+      `tick(passed)` — called with the position of every callback and with `Qlen-k+1` after the scan —
+      retires every tube that has ended (true); or `ticker` is a countdown decremented once per
+      *callback*, the tube of the callback's position being retired when it reaches 0 (false: a
+      k-mer holding a letter outside the alphabet gets no callback, so the countdown runs late) -/
+  tickByPosition : Bool := true
   deriving Repr, DecidableEq
 
 /-- the pinned tree -/
-def Rule.pinned : Rule := { retireSubMaxError := false, flushFromLastTick := false }
+def Rule.pinned : Rule := { retireSubMaxError := false, flushFromLastTick := false, tickByPosition := false }
 
 structure Tube where
   qLo : Nat
@@ -143,16 +150,37 @@ def tubeFlush (c : Cfg) (s : St) (ti : Nat) : St :=
 /-- loop state of the callback in `Filter`: tubes, hits and the ticker -/
 structure Loop where
   st : St
-  ticker : Int
+  ticker : Nat
   deriving Repr
+
+/-- `for ; ticker <= passed; ticker += f.tubeOffset { f.tubeEnd(ticker - 1) }` with `fuel`
+    iterations left (for `tubeOffset ≥ 1` the loop ends within `passed + 1 - ticker` iterations;
+    `tubeOffset = 0` never reaches this loop: `Filter` has panicked before) -/
+def tickLoop (c : Cfg) (passed : Nat) : Nat → St → Nat → Loop
+  | 0, st, ticker => { st, ticker }
+  | fuel + 1, st, ticker =>
+    if ticker ≤ passed then tickLoop c passed fuel (tubeEnd c st (ticker - 1)) (ticker + c.off)
+    else { st, ticker }
+
+/-- `tick(passed)`: retire the tubes that have ended once `passed` query positions lie behind -/
+def tick (c : Cfg) (l : Loop) (passed : Nat) : Loop := tickLoop c passed (passed + 1 - l.ticker) l.st l.ticker
+
+/-- the loop over the target positions of one k-mer: `commonKmer(ki.PosAt(i), position)` -/
+def kmers (c : Cfg) (l : Loop) (position : Nat) (ts : List Nat) : Loop :=
+  { l with st := ts.foldl (fun s t => commonKmer c s t position) l.st }
 
 /-- the callback for one k-mer of the query at `position`, `ts` = its positions in the target in
     index order -/
 def onKmer (c : Cfg) (l : Loop) (position : Nat) (ts : List Nat) : Loop :=
-  let st := ts.foldl (fun s t => commonKmer c s t position) l.st
-  let ticker := l.ticker - 1
-  if ticker = 0 then { st := tubeEnd c st position, ticker := c.off }
-  else { st, ticker }
+  if c.rule.tickByPosition then
+    kmers c (tick c l position) position ts
+  else
+    -- `if ticker--; ticker == 0 { tubeEnd(position); ticker = f.tubeOffset }` (the ticker starts at
+    -- `tubeWidth ≥ 1` and is reset to `tubeOffset ≥ 1`, so it never passes below 0)
+    let st := (kmers c l position ts).st
+    let ticker := l.ticker - 1
+    if ticker = 0 then { st := tubeEnd c st position, ticker := c.off }
+    else { st, ticker }
 
 /-- positions of `kmer` in the target, read as the callback does (`FingerAt`, `PosAt`) -/
 def targetPositions (ix : Biogo.Kmer.Index) (kmer : Nat) : List Nat :=
@@ -207,6 +235,8 @@ def filter (rule : Rule) (lk : Lookup) (ix : Biogo.Kmer.Index) (p : Params) (que
     let l := it.calls.foldl (fun l call => onKmer c l call.1 (targetPositions ix call.2)) l0
     if it.err then .error .iter
     else
+      -- `tick(query.Len() - f.k + 1)` (an `int` ≤ 0 retires nothing, like the truncated `Nat`)
+      let l := if rule.tickByPosition then tick c l (query.length + 1 - ix.k) else l
       let st := tubeEnd c l.st (query.length - 1)
       let (tubeFrom, tubeTo) := flushRange c query.length
       let st := flushLoop c ((tubeTo + 1 - tubeFrom).toNat) tubeFrom st
